@@ -260,7 +260,7 @@ theorem write_decode_full (kvs : List (Bytes × KVal)) (ts : List TIn) (file : B
   obtain ⟨head, hheadd⟩ : ∃ head, head = encHead false align kvs ts := ⟨_, rfl⟩
   have hfile : file = head ++ encData align ts head.length := by
     unfold encode at henc
-    simp only [halign, bind, Except.bind] at henc
+    simp only [writerAlignment_lenient _ _ halign, bind, Except.bind] at henc
     split at henc
     · cases henc
     · simp only [pure, Except.pure] at henc
